@@ -42,7 +42,12 @@ RULE = (
     "Pillow directly in modes L/RGB/RGBA/P/1; (overwrite) histories of export/import/seed steps over a temp tree "
     "with str/Path, relative/absolute, dotted and upper-case spellings and a dict path->bytes model. Non-trivial: "
     "landmarks with labels, NaN or >= 2 groups; images with >= 64 distinct 8-bit values; histories with a refused "
-    "export after a successful one. Distinct = distinct canonical-JSON digest of the case."
+    "export after a successful one. Added by the audit round: 1- and 2-point groups and a drawn group= fetch (ljson); negative, "
+    ">= 1e6, float32 and int64 coordinates (pts); GMRF / linear models, group alignments, RBF kernels, n-D and imported images, PCA "
+    "over MaskedImage / TriMesh, each with public behaviour probes on the unpickled copy (pickle); pgm / pbm / pcx / im and JPEG-written "
+    "sources (images); refused exports onto empty files, directories and with a mismatching extension= (refused_export); exports into "
+    "BytesIO / BufferedWriter / named handles (handle_export); import_image(...).landmarks, import_images and import_landmark_files over "
+    "a directory of pictures with .ljson / .pts files (attach). Distinct = distinct canonical-JSON digest of the case."
 )
 ASSUMPTIONS = [
     "point clouds have >= 1 point: an empty cloud is written as 'points: []' which carries no dimension and is outside the stated domain",
@@ -56,6 +61,23 @@ ASSUMPTIONS = [
     "jpeg is used only as an overwrite target, never for exactness",
     "generated image clauses run with Pillow fully initialised (PIL.Image.init() at module import) so that a case does not depend on what the worker process did before; the dependence on Pillow's lazy plugin registry is checked separately in fresh interpreters (image_fresh_process)",
     "for a bare shape written to .ljson and for .pts files the single returned group is used whatever its name (only managers / dicts promise group names)",
+    "pts coordinates lie in [-4e6, 4e6] (beyond that the double spacing of x + 1 itself approaches the 1e-9 slack added to the 0.5e-3 bound); float32 "
+    "points are k/1024 with |x| <= 4000 so that the stored value and the exporter's x + 1 are exact in float32 (the bound is about the format, not about "
+    "float32 arithmetic); int64 points up to 1e12",
+    "formats are limited to what Pillow itself returns unchanged: no RGB pictures 1 or 3 pixels wide as .pcx (Pillow 12 codec defect), ASCII file "
+    "names for .im (Pillow writes the name into an ASCII header and raises UnicodeEncodeError otherwise), no xbm / gif / eps / dcx / pcd / psd / xpm",
+    "a JPEG source is judged against Pillow's own decoding of the file (import -> export to a lossless format -> import must be the identity on that data)",
+    "pickle behaviour probes compare the original with its unpickled copy (menpo on both sides, same process) within rtol 1e-9; they accompany the state "
+    "comparison, they do not replace an independent reference (the other clauses of the owning properties have those); an exception raised by "
+    "both sides with the same type counts as agreement",
+    "file handles: what the handle received is saved under the same extension and imported (no byte-equality with the path export is demanded: "
+    "Pillow's IM writer, for one, embeds the file name); a named handle opened 'wb' has already truncated its file, so only 'OverwriteError unless "
+    "overwrite=True' and 'other files unchanged' are judged there; handles whose .name is not a path (tempfile.TemporaryFile: an int) are not generated",
+    "a directory at the target with overwrite=False must be refused with OverwriteError ('an existing path'); with overwrite=True nothing is claimed for it; "
+    "a mismatching extension= on an existing path may be refused with ValueError or OverwriteError, the tree must be unchanged either way",
+    "attach: landmark files are attached by menpo's default resolver (same stem); stems are chosen so that no stem is a dotted prefix of another "
+    "('a.png' would also pick up 'a.b.ljson'), ljson group names avoid 'PTS' / 'LJSON' (merged dictionaries would clash), 3-D groups next to a 2-D "
+    "picture are neither required nor forbidden; order of import_images / import_landmark_files is judged only among lower-case ASCII-letter stems",
 ]
 
 _SKIP_PATH = (".path",)
@@ -134,12 +156,34 @@ AWKWARD = [0.1 + 0.2, 1.0 / 3.0, -0.0, 1e-300, -1e300, 5e-324, 123456789.1234567
 
 
 LM_KINDS = objs.SHAPE_KINDS + ["LabelledPointUndirectedGraph"] * 3 + ["PointUndirectedGraph", "PointDirectedGraph"]
+SMALL_KINDS = [k for k in LM_KINDS if "TriMesh" not in k]
+
+
+@st.composite
+def small_shape_case(draw, d):
+    """1- and 2-point shapes in the plain-data form of objs.shape_case (whose edge strategy needs >= 2 vertices)."""
+    kind = draw(st.sampled_from(SMALL_KINDS))
+    n = 2 if kind == "PointTree" else draw(st.integers(1, 2))  # (menpo refuses a one-vertex tree: "isolated vertices")
+    c = {"kind": kind, "d": d, "pts": draw(gen.points_case(n=n, d=d))}
+    if kind == "PointTree":
+        c["edges"], c["root"] = ([[0, 1]] if n == 2 else []), 0
+    elif kind == "PointDirectedGraph":
+        c["edges"] = draw(st.sampled_from([[], [[0, 1]], [[1, 0]], [[0, 1], [1, 0]]])) if n == 2 else []
+    elif kind != "PointCloud":
+        c["edges"] = draw(st.sampled_from([[], [[0, 1]], [[1, 0]]])) if n == 2 else []
+    if kind == "LabelledPointUndirectedGraph":
+        c["labels"] = draw(objs.label_case(n))
+    return c
 
 
 @st.composite
 def lm_shape_case(draw, d, kinds=None):
     """objs.shape_case (no nested landmarks) + NaN positions, awkward values and a points dtype."""
-    c = draw(objs.shape_case(kinds=kinds or LM_KINDS, d=d, with_landmarks=False))
+    if kinds is None and draw(st.integers(0, 5)) == 0:
+        # 1- and 2-point shapes (no triangle fits): clouds, graphs, trees, labelled graphs
+        c = draw(small_shape_case(d))
+    else:
+        c = draw(objs.shape_case(kinds=kinds or LM_KINDS, d=d, with_landmarks=False))
     n = len(c["pts"])
     nan_mode = draw(st.sampled_from(["none", "few", "few", "prefix"]))
     if nan_mode == "none":
@@ -208,7 +252,7 @@ def s_ljson():
         form = draw(st.sampled_from(["shape", "shape", "manager", "manager", "dict"]))
         d = draw(st.sampled_from([2, 3]))
         case = {"form": form, "d": d, "file": draw(st.sampled_from(LJSON_FILES)), "as_path": draw(st.booleans()),
-                "by_group": draw(st.booleans())}
+                "by_group": draw(st.booleans()), "fetch": draw(st.integers(0, 3)), "fetch_as_path": draw(st.booleans())}
         if form == "shape":
             case["groups"] = [["LJSON", draw(lm_shape_case(d))]]
         else:
@@ -236,6 +280,8 @@ def c_ljson(case, ctx):
     for nm, c, s, w in built:
         ctx.event("kind=%s d=%d" % (c["kind"], c["d"]))
         ctx.event("dtype=" + c["dtype"])
+        if len(c["pts"]) < 3:
+            ctx.event("n_points=%d" % len(c["pts"]))
         if np.isnan(w).any():
             ctx.event("nan=all" if np.isnan(w).all() else "nan=some")
         if c["kind"] not in ("PointCloud",) and not expected_edges(c):
@@ -281,9 +327,11 @@ def c_ljson(case, ctx):
         for nm, c, s, w in built:
             check_landmark_shape(ctx, c, w, back[nm], "ljson")
         if case["by_group"]:
-            nm, c, s, w = built[-1]
+            # which group is fetched is drawn (cases recorded before this field existed fetch the last one)
+            nm, c, s, w = built[case.get("fetch", len(built) - 1) % len(built)]
             if nm:  # an empty group name means 'no group' to import_landmark_file
-                one = mio.import_landmark_file(p, group=nm)
+                one = mio.import_landmark_file(_as_fp(p, case.get("fetch_as_path", False)), group=nm)
+                ctx.event("group= fetch of group %d of %d" % (case.get("fetch", len(built) - 1) % len(built), len(built)))
                 check_landmark_shape(ctx, c, w, one, "ljson.group_kwarg")
 
 
@@ -291,6 +339,9 @@ def c_ljson(case, ctx):
 # 2. PTS
 
 PTS_FILES = ["p.pts", "p.q.pts", "P.PTS", "a.ljson.pts"]
+
+
+PTS_LIMIT = 4000000  # |x| + 1 is still printed and parsed with an error far below 1e-9 (ulp of 4e6 is 4.7e-10)
 
 
 def _coord():
@@ -303,6 +354,18 @@ def _coord():
     )
 
 
+def _coord_wide():
+    """Negative coordinates and magnitudes up to 4e6 (seven integer digits + three decimals)."""
+    return st.one_of(
+        gen.q(-5000, 5000),
+        st.integers(-PTS_LIMIT * 1000, PTS_LIMIT * 1000).map(lambda k: k / 1000.0),
+        st.integers(-PTS_LIMIT * 2000, PTS_LIMIT * 2000).map(lambda k: k / 2000.0),
+        st.floats(min_value=-float(PTS_LIMIT), max_value=float(PTS_LIMIT), allow_nan=False, allow_infinity=False),
+        st.floats(min_value=999.0, max_value=float(PTS_LIMIT), allow_nan=False, allow_infinity=False),
+        st.sampled_from([-1.0, -0.9995, -1.0005, -0.0004, -1e-9, 999999.4995, 1000000.0005, -999999.9995, 1234567.891, 99999.9985]),
+    )
+
+
 def s_pts():
     @st.composite
     def s(draw):
@@ -310,8 +373,17 @@ def s_pts():
         d = draw(st.sampled_from([2, 2, 2, 2, 2, 2, 2, 3]))
         c = draw(objs.shape_case(d=d, with_landmarks=False))
         n = len(c["pts"])
-        c["pts"] = draw(st.lists(st.lists(_coord(), min_size=d, max_size=d), min_size=n, max_size=n))
-        return {"shape": c, "file": draw(st.sampled_from(PTS_FILES)), "as_path": draw(st.booleans())}
+        dtype = draw(st.sampled_from(["float64", "float64", "float64", "float64", "float32", "int64"]))
+        if dtype == "float32":
+            # k/1024 with |k/1024| <= 4000: the value and value + 1 are exact in float32, so the stored float32 data
+            # is exactly what the case says and the exporter's own arithmetic adds no error of its own
+            co = gen.q(-4000, 4000)
+        elif dtype == "int64":
+            co = st.one_of(st.integers(-5000, 5000), st.integers(-10 ** 12, 10 ** 12)).map(float)
+        else:
+            co = draw(st.sampled_from([_coord(), _coord(), _coord_wide()]))
+        c["pts"] = draw(st.lists(st.lists(co, min_size=d, max_size=d), min_size=n, max_size=n))
+        return {"shape": c, "file": draw(st.sampled_from(PTS_FILES)), "as_path": draw(st.booleans()), "dtype": dtype}
 
     return s()
 
@@ -319,8 +391,17 @@ def s_pts():
 def c_pts(case, ctx):
     c = case["shape"]
     s = objs.build_shape(c)
-    want = np.array(c["pts"], dtype=float)
+    dtype = case.get("dtype", "float64")
+    stored = np.array(c["pts"], dtype=float).astype(dtype)
+    s.points = stored
+    # the reference is what the shape holds (for float32 / int64 exactly the case's numbers, by construction)
+    want = stored.astype(np.float64)
     ctx.event("kind=" + c["kind"])
+    ctx.event("dtype=" + dtype)
+    big = float(np.abs(want).max())
+    ctx.event("max |coordinate| " + ("< 1e3" if big < 1e3 else "< 1e4" if big < 1e4 else "< 1e6" if big < 1e6 else ">= 1e6"))
+    if (want < 0).any():
+        ctx.event("negative coordinate")
     ctx.nontrivial(bool((np.abs(want[:, 0] - want[:, 1]) > 0.01).any()))
     ctx.event("d=%d" % want.shape[1])
     with _Tmp() as t:
@@ -354,7 +435,12 @@ def c_pts(case, ctx):
 # 3. pickle / gzip pickle
 
 PKL_FILES = ["o.pkl", "o.p.pkl", "UP.PKL", "o.pkl.gz", "x.tar.pkl.gz", "w.PKL.GZ", "m.pkl.GZ"]
-PKL_WHAT = ["shape", "shape", "manager", "transform", "transform", "image", "image", "pca_shape", "pca_image", "pca_vector"]
+PKL_WHAT = ["shape", "shape", "manager", "transform", "transform", "image", "image", "pca_shape", "pca_image", "pca_vector",
+            # classes added after the audit: every remaining model class, group alignment, kernels, n-D and imported images
+            "gmrf", "gmrf_vector", "linear_vector", "mean_linear_vector", "gpa", "rbf", "image_nd", "imported_image",
+            "pca_masked", "pca_trimesh"]
+_PKL_SEEDED = ("pca_shape", "pca_image", "pca_vector", "gmrf", "gmrf_vector", "linear_vector", "mean_linear_vector", "gpa", "rbf",
+               "pca_masked", "pca_trimesh")
 
 
 def s_pickle():
@@ -362,24 +448,65 @@ def s_pickle():
     def s(draw):
         what = draw(st.sampled_from(PKL_WHAT))
         case = {"what": what, "file": draw(st.sampled_from(PKL_FILES)), "as_path": draw(st.booleans()),
-                "protocol": draw(st.sampled_from([None, None, 0, 1, 2, 3, 4, 5])), "path_attr": draw(st.booleans())}
+                "protocol": draw(st.sampled_from([None, None, 0, 1, 2, 3, 4, 5])), "path_attr": draw(st.booleans()),
+                "probe_seed": draw(st.integers(0, 2 ** 16))}
         if what in ("shape", "manager"):
             case["obj"] = draw(objs.shape_case())
         elif what == "transform":
             case["obj"] = draw(objs.transform_case())
         elif what == "image":
             case["obj"] = draw(objs.image_case(smin=1, smax=12))
+        elif what == "image_nd":
+            nd = draw(st.sampled_from([3, 3, 4]))  # (a (ch, n) array is read as a 2-D picture: there is no 1-D image)
+            case["obj"] = draw(objs.image_case(ndim=nd, smin=1, smax=5 if nd < 4 else 3, with_landmarks=nd == 3))
+        elif what == "imported_image":
+            case["obj"] = {"seed": draw(st.integers(0, 2 ** 16)), "shape": draw(st.lists(st.integers(1, 9), min_size=2, max_size=2)),
+                           "ch": draw(st.sampled_from([1, 3])), "ext": draw(st.sampled_from(["png", "bmp", "tif", "ppm"])),
+                           "stem": draw(st.sampled_from(["src", "a.b", "\u00fc x"])), "normalize": draw(st.booleans()),
+                           "landmarks": draw(st.booleans())}
         else:
             case["obj"] = {"seed": draw(st.integers(0, 2 ** 16)), "n_samples": draw(st.integers(2, 6)),
                            "n": draw(st.integers(2, 6)), "d": draw(st.sampled_from([2, 3])),
                            "centre": draw(st.booleans()), "trim": draw(st.sampled_from([None, 1, 2]))}
+            if what in ("gmrf", "gmrf_vector"):
+                n = case["obj"]["n"]
+                case["obj"].update({
+                    "graph": draw(st.sampled_from(["chain", "empty", "complete", "tree"])),
+                    "mode": draw(st.sampled_from(["concatenation", "subtraction"])),
+                    "sparse": draw(st.booleans()), "incremental": draw(st.booleans()),
+                    "single": draw(st.booleans()), "n_components": draw(st.sampled_from([None, None, 1])),
+                    # an edge's covariance block is (2 d) x (2 d): more than 2 d + 1 random samples keep it invertible
+                    "n_samples": draw(st.integers(2 * case["obj"]["d"] + 4, 2 * case["obj"]["d"] + 9)), "bias": draw(st.sampled_from([0, 1])),
+                })
+            if what == "gpa":
+                case["obj"].update({"target": draw(st.booleans()), "mirror": draw(st.booleans()), "n": draw(st.integers(3, 7))})
+            if what == "rbf":
+                case["obj"]["kernel"] = draw(st.sampled_from(["R2LogR2RBF", "R2LogRRBF"]))
         return case
 
     return s()
 
 
-def build_pickle_obj(case):
-    from menpo.model import PCAModel, PCAVectorModel
+def _graph_adjacency(kind, n, rs):
+    a = np.zeros((n, n), dtype=int)
+    if kind == "chain":
+        for i in range(n - 1):
+            a[i, i + 1] = a[i + 1, i] = 1
+    elif kind == "complete":
+        a[:] = 1
+        a[np.arange(n), np.arange(n)] = 0
+    elif kind == "tree":
+        for i in range(1, n):
+            j = int(rs.randint(0, i))
+            a[i, j] = a[j, i] = 1
+    return a
+
+
+def build_pickle_obj(case, root=None):
+    from menpo.model import PCAModel, PCAVectorModel, GMRFModel, GMRFVectorModel, LinearVectorModel, MeanLinearVectorModel
+    from menpo.shape import TriMesh, UndirectedGraph
+    from menpo.transform import GeneralizedProcrustesAnalysis
+    from menpo.transform import rbf as _rbf
 
     what, c = case["what"], case["obj"]
     if what == "shape":
@@ -391,28 +518,128 @@ def build_pickle_obj(case):
         return s.landmarks
     if what == "transform":
         return objs.build_transform(c)
-    if what == "image":
+    if what in ("image", "image_nd"):
         return objs.build_image(c)
     rs = np.random.RandomState(c["seed"])
+    if what == "imported_image":
+        # an image as a user gets it from import_image: .path is a concrete PosixPath set by the importer
+        k = rs.randint(0, 256, size=(c["ch"],) + tuple(c["shape"])).astype(np.uint8)
+        src = os.path.join(root, c["stem"] + "." + c["ext"])
+        mio.export_image(Image(k), src)
+        if c["landmarks"]:
+            mio.export_landmark_file(PointCloud(rs.rand(3, 2) * 4), os.path.join(root, c["stem"] + ".pts"))
+        return mio.import_image(src, normalize=c["normalize"])
     if what == "pca_shape":
         m = PCAModel([PointCloud(rs.rand(c["n"], c["d"]) * 10) for _ in range(c["n_samples"])], centre=c["centre"])
     elif what == "pca_image":
         m = PCAModel([Image(rs.rand(1, c["n"], c["n"] + 1)) for _ in range(c["n_samples"])], centre=c["centre"])
-    else:
+    elif what == "pca_vector":
         m = PCAVectorModel(rs.rand(c["n_samples"], c["n"] * c["d"]), centre=c["centre"])
+    elif what == "pca_masked":
+        mask = objs._mask_array("random", (c["n"], c["n"] + 1), rs)
+        m = PCAModel([MaskedImage(rs.rand(c["d"] - 1, c["n"], c["n"] + 1), mask=mask) for _ in range(c["n_samples"])], centre=c["centre"])
+    elif what == "pca_trimesh":
+        n = c["n"] + 1
+        tl = np.array([[i, (i + 1) % n, (i + 2) % n] for i in range(n - 2)])
+        m = PCAModel([TriMesh(rs.rand(n, c["d"]) * 10, trilist=tl) for _ in range(c["n_samples"])], centre=c["centre"])
+    elif what in ("gmrf", "gmrf_vector"):
+        n, d = c["n"], c["d"]
+        g = UndirectedGraph(_graph_adjacency(c["graph"], n, rs))
+        kw = dict(mode=c["mode"], sparse=c["sparse"], incremental=c["incremental"], n_components=c["n_components"], bias=c["bias"],
+                  dtype=np.float32 if c["single"] else np.float64)
+        data = rs.rand(c["n_samples"], n * d) * 10
+        if what == "gmrf":
+            return GMRFModel([PointCloud(row.reshape(n, d)) for row in data], g, **kw)
+        return GMRFVectorModel(data, g, **kw)
+    elif what == "linear_vector":
+        return LinearVectorModel(rs.randn(min(c["n_samples"], c["n"] * c["d"]), c["n"] * c["d"]))
+    elif what == "mean_linear_vector":
+        return MeanLinearVectorModel(rs.randn(min(c["n_samples"], c["n"] * c["d"]), c["n"] * c["d"]), rs.randn(c["n"] * c["d"]))
+    elif what == "gpa":
+        base = rs.rand(c["n"], c["d"]) * 10
+        srcs = [PointCloud(base * (0.5 + rs.rand()) + rs.randn(c["n"], c["d"]) * 0.3 + rs.randn(c["d"])) for _ in range(c["n_samples"])]
+        return GeneralizedProcrustesAnalysis(srcs, target=PointCloud(base) if c["target"] else None, allow_mirror=c["mirror"])
+    elif what == "rbf":
+        return getattr(_rbf, c["kernel"])(rs.rand(c["n"] + 1, c["d"]) * 10)
     if c["trim"] is not None and m.n_components > c["trim"]:
         m.trim_components(c["trim"])
     return m
 
 
+def _outcome(f):
+    """('ok', value) or ('raised', exception type name): the pair compared between an object and its unpickled copy.
+    Any exception type is an outcome here (nothing is swallowed: the two outcomes are compared)."""
+    try:
+        return ("ok", f())
+    except Exception as e:  # noqa: BLE001 - differential: recorded, then compared
+        return ("raised", type(e).__name__)
+
+
+def _as_numbers(v):
+    if hasattr(v, "as_vector"):
+        return np.asarray(v.as_vector(), dtype=float)
+    return np.asarray(v, dtype=float)
+
+
+def behaviour_probes(obj, seed):
+    """[(name, thunk(o))]: public calls whose results must agree between an object and its unpickled copy. The probe
+    inputs come from a seeded generator only (never from either object's private state)."""
+    import menpo.transform as mt
+    from menpo.model import PCAModel, PCAVectorModel, GMRFVectorModel, LinearVectorModel
+    from menpo.transform import GeneralizedProcrustesAnalysis
+
+    rs = np.random.RandomState(seed)
+    out = []
+    if isinstance(obj, GeneralizedProcrustesAnalysis):
+        x = rs.rand(4, obj.transforms[0].n_dims) * 10
+        out.append(("gpa.mean_aligned_shape", lambda o: o.mean_aligned_shape().points))
+        out.append(("gpa.mean_alignment_error", lambda o: o.mean_alignment_error()))
+        out.append(("gpa.transforms.apply", lambda o: np.array([t.apply(x) for t in o.transforms])))
+        out.append(("gpa.converged", lambda o: [float(o.converged), float(o.n_iterations)]))
+    elif isinstance(obj, mt.Transform if hasattr(mt, "Transform") else ()):
+        nd = obj.n_dims
+        if nd is not None:
+            x = rs.rand(6, nd) * 10
+            src = getattr(obj, "source", None)
+            if src is not None:  # alignments / warps: also at their own source points and at a point inside their hull
+                x = np.vstack([x, np.asarray(src.points), np.asarray(src.points).mean(axis=0)[None]])
+            out.append(("transform.apply", lambda o: o.apply(x)))
+    elif isinstance(obj, GMRFVectorModel):
+        q = rs.rand(3, obj.n_features) * 10
+        if hasattr(obj, "template_instance"):
+            qs = [obj.template_instance.from_vector(r) for r in q]
+            out.append(("gmrf.mahalanobis_distance", lambda o: o.mahalanobis_distance(qs)))
+            out.append(("gmrf.mean", lambda o: o.mean()))
+        else:
+            out.append(("gmrf.mahalanobis_distance", lambda o: o.mahalanobis_distance(q)))
+            out.append(("gmrf.mean", lambda o: o.mean()))
+        out.append(("gmrf.dtype", lambda o: [float(np.dtype(o.dtype).itemsize), float(np.asarray(o.precision.dtype.itemsize))]))
+    elif isinstance(obj, (PCAModel, PCAVectorModel, LinearVectorModel)):
+        w = rs.randn(obj.n_components)
+        out.append(("model.instance", lambda o: o.instance(w)))
+        out.append(("model.components", lambda o: o.components))
+        if isinstance(obj, (PCAModel, PCAVectorModel)):
+            out.append(("model.eigenvalues", lambda o: o.eigenvalues))
+            v = rs.rand(obj.n_features)
+            if isinstance(obj, PCAModel):
+                out.append(("model.project", lambda o: o.project(o.template_instance.from_vector(v))))
+            else:
+                out.append(("model.project", lambda o: o.project(v)))
+    return out
+
+
 def c_pickle(case, ctx):
-    obj = build_pickle_obj(case)
     gz = case["file"].lower().endswith(".gz")
-    ctx.event("class=" + type(obj).__name__)
-    ctx.event("gz=%s protocol=%s" % (gz, case["protocol"]))
     with _Tmp() as t:
+        os.makedirs(os.path.join(t.root, "in"))
+        obj = build_pickle_obj(case, os.path.join(t.root, "in"))
+        ctx.event("class=" + type(obj).__name__)
+        ctx.event("what=" + case["what"])
+        ctx.event("gz=%s protocol=%s" % (gz, case["protocol"]))
         p = os.path.join(t.root, case["file"])
-        if case["path_attr"] and hasattr(obj, "__dict__"):
+        if isinstance(getattr(obj, "path", None), Path):
+            ctx.event("path attribute set by the importer (%s)" % type(obj.path).__name__)
+        elif case["path_attr"] and hasattr(obj, "__dict__"):
             obj.path = Path(t.root) / "source" / "asset.png"
             ctx.event("path attribute set")
         kw = {} if case["protocol"] is None else {"protocol": case["protocol"]}
@@ -425,12 +652,30 @@ def c_pickle(case, ctx):
     ctx.nontrivial(n_arrays >= 1)
     diff = digest.state_diff(obj, back, skip=_SKIP_PATH, memo_tolerant=True)
     ctx.expect(diff is None, "pickle.state", lambda: "%s via %s: %s" % (type(obj).__name__, case["file"], diff))
+    if not ctx.expect(type(back) is type(obj), "pickle.class", lambda: "%s came back as %s" % (type(obj).__name__, type(back).__name__)):
+        return
+    # behaviour: what a caller computes with the copy equals what the original computes (same code, equal data; the
+    # tolerance only allows for a different memory layout of the unpickled arrays inside BLAS calls)
+    for name, probe in behaviour_probes(obj, case.get("probe_seed", 0)):
+        a, b = _outcome(lambda: probe(obj)), _outcome(lambda: probe(back))
+        ctx.event("probe " + name + (" (raises)" if a[0] == "raised" else ""))
+        if a[0] != b[0] or a[0] == "raised":
+            ctx.expect(a == b, "pickle.behaviour." + name, lambda: "original: %r, unpickled: %r" % (a, b))
+            continue
+        va, vb = _as_numbers(a[1]), _as_numbers(b[1])
+        ok = va.shape == vb.shape and np.allclose(va, vb, rtol=1e-9, atol=1e-9 * (1.0 + float(np.abs(va[np.isfinite(va)]).max() if np.isfinite(va).any() else 0.0)), equal_nan=True)
+        ctx.expect(ok, "pickle.behaviour." + name, lambda: "%s: shapes %r / %r, max |delta| %s" % (
+            type(obj).__name__, va.shape, vb.shape, float(np.nanmax(np.abs(va - vb))) if va.shape == vb.shape and va.size else "-"))
 
 
 # ==============================================================================================
 # 4. images
 
-IMG_EXTS = ["tif", "png", "bmp", "tiff", "PNG", "png", "Tiff", "BMP", "dib", "ppm"]
+# every extension of menpo's image exporter map that Pillow writes losslessly for 8-bit grey / RGB data (probed: pgm, pbm,
+# ppm all take the raw PNM variant of the image's mode; pcx and im are run-length / raw). Not here: xbm (1-bit only: refused
+# for mode L), gif (palette + imported through ffmpeg), jpg/jpe/jpeg (lossy), eps (needs Ghostscript to read),
+# dcx/pcd/psd/xpm (Pillow has no writer)
+IMG_EXTS = ["tif", "png", "bmp", "tiff", "PNG", "png", "Tiff", "BMP", "dib", "ppm", "pgm", "pbm", "pcx", "im", "PGM", "Pcx"]
 # levels whose normalised form k * (1/255) falls just below k/255, so that truncating x * 255 loses one level
 BAD_LEVELS = [k for k in range(256) if int(k * (1.0 / 255.0) * 255.0) != k]
 
@@ -451,6 +696,13 @@ def levels(case):
     return k.reshape(ch, h, w).astype(np.uint8)
 
 
+def _pcx_width(c, exts):
+    """Pillow's own PCX codec (12.x) does not return RGB pictures that are 1 or 3 pixels wide (its writer pads the scan
+    line, its reader then reports a truncated file or shifted planes; menpo is not involved): such widths grow by one."""
+    if any(e.lower() == "pcx" for e in exts) and c["shape"][1] in (1, 3):
+        c["shape"][1] += 1
+
+
 @st.composite
 def img_common(draw):
     cls = draw(st.sampled_from(["Image", "Image", "MaskedImage", "BooleanImage"]))
@@ -461,6 +713,9 @@ def img_common(draw):
          "stem": draw(st.sampled_from(["im", "a.b", "ü x", "im.png"])), "as_path": draw(st.booleans())}
     if cls == "MaskedImage":
         c["mask"] = draw(st.sampled_from(["all", "random", "blob", "single"]))
+    _pcx_width(c, [c["ext"]])
+    if c["ext"].lower() == "im" and not c["stem"].isascii():
+        c["stem"] = "im.v2"  # Pillow's IM writer stores the file name in an ASCII header field and raises for other names
     return c
 
 
@@ -619,6 +874,7 @@ def c_imagef(case, ctx):
 
 
 SRC_MODES = ["L", "RGB", "RGBA", "P", "1"]
+JPEG_EXTS = ("jpg", "jpeg", "jpe")
 
 
 def s_reimport():
@@ -631,13 +887,20 @@ def s_reimport():
              "fill": draw(st.sampled_from(["ramp", "ramp", "random", "bad"])), "normalize": draw(st.sampled_from([True, True, False, None])),
              "as_path": draw(st.booleans())}
         if mode in ("L", "RGB"):
-            c["src_ext"] = draw(st.sampled_from(["png", "bmp", "tif", "tiff", "PNG", "ppm"]))
+            # jpg / jpeg / JPG: a lossy SOURCE is still 8-bit data once decoded; the reference is Pillow's own decoding
+            c["src_ext"] = draw(st.sampled_from(["png", "bmp", "tif", "tiff", "PNG", "ppm", "pcx", "im", "dib", "jpg", "jpeg", "JPG", "jpe"]
+                                                + (["pgm"] if mode == "L" else [])))
+            if c["src_ext"].lower() in JPEG_EXTS:
+                c["jpeg"] = {"quality": draw(st.sampled_from([30, 75, 95])), "smooth": draw(st.booleans())}
         elif mode == "RGBA":
             c["src_ext"] = draw(st.sampled_from(["png", "tif"]))
             c["alpha"] = draw(st.sampled_from(["opaque", "random", "binary"]))
+        elif mode == "P":
+            c["src_ext"] = draw(st.sampled_from(["png", "tif", "bmp", "pcx", "im", "dib"]))
         else:
-            c["src_ext"] = draw(st.sampled_from(["png", "tif", "bmp"]))
+            c["src_ext"] = draw(st.sampled_from(["png", "tif", "bmp", "pbm", "pcx", "im", "dib", "PBM"]))
         c["out_ext"] = draw(st.sampled_from(IMG_EXTS))
+        _pcx_width(c, [c["src_ext"], c["out_ext"]])
         return c
 
     return s()
@@ -680,12 +943,29 @@ def c_reimport(case, ctx):
     kw = {} if normalize is None else {"normalize": normalize}
     norm = normalize is not False
     distinct = len(np.unique(want))
-    ctx.nontrivial(distinct >= 64 or mode == "1")
+    if not case.get("jpeg"):  # (a JPEG source is judged by what the decoded file holds, below)
+        ctx.nontrivial(distinct >= 64 or mode == "1")
     ctx.event("mode=%s normalize=%s" % (mode, normalize))
     ctx.event("src=%s out=%s" % (case["src_ext"].lower(), case["out_ext"].lower()))
     with _Tmp() as t:
         src = os.path.join(t.root, "src." + case["src_ext"])
-        pil.save(src)
+        if case.get("jpeg"):
+            if case["jpeg"]["smooth"]:
+                # a smooth picture (JPEG of noise keeps few distinct levels apart): blur the ramp along both axes
+                arr = np.asarray(pil).astype(float)
+                for ax in (0, 1):
+                    arr = (arr + np.roll(arr, 1, axis=ax) + np.roll(arr, -1, axis=ax)) / 3.0
+                pil = PILImage.fromarray(np.round(arr).astype(np.uint8), mode=mode)
+            pil.save(src, quality=case["jpeg"]["quality"])
+            # the file is lossy with respect to the arrays above, but what it now holds is plain 8-bit data: the
+            # reference is Pillow's own decoding of it (menpo is not involved)
+            with PILImage.open(src) as chk:
+                dec = np.asarray(chk)
+            want = dec[None] if dec.ndim == 2 else np.moveaxis(dec, -1, 0)
+            ctx.nontrivial(len(np.unique(want)) >= 64)
+            ctx.event("jpeg source with %s distinct levels" % (">= 64" if len(np.unique(want)) >= 64 else "< 64"))
+        else:
+            pil.save(src)
         with PILImage.open(src) as chk:
             opened_mode = chk.mode
         if opened_mode != mode:
@@ -931,12 +1211,13 @@ def c_history(case, ctx):
             spell = "%s/%s" % ("Path" if st_["as_path"] else "str", "abs" if is_abs else "rel")
             if st_["op"] == "seed":
                 # a pre-existing foreign file (any exporter must refuse to clobber it)
-                data = b"foreign-%d-" % st_["tag"] + bytes(range(st_["tag"] % 7 + 1))
+                # (one in four is an EMPTY file: it exists, so it is protected like any other)
+                data = b"" if st_["tag"] % 4 == 0 else b"foreign-%d-" % st_["tag"] + bytes(range(st_["tag"] % 7 + 1))
                 with open(os.path.join(t.root, d, name), "wb") as f:
                     f.write(data)
                 model[key] = data
                 meta.pop(key, None)
-                ctx.event("op=seed")
+                ctx.event("op=seed" + (" (0 bytes)" if not data else ""))
                 continue
             if st_["op"] == "import":
                 if key not in meta or meta[key][0] == "video" or name.lower().endswith((".jpg", ".gif")):
@@ -1038,25 +1319,488 @@ def _snapdiff(model, snap):
     return "; ".join(out) or "no difference"
 
 
+# ==============================================================================================
+# 6. refused exports on awkward targets: empty files, directories, a mismatching extension= on an existing path
+
+REFUSE_TARGETS = ["empty_file", "empty_file", "foreign", "own", "dir_empty", "dir_full"]
+
+
+def tree_snapshot(root):
+    """Every entry below root: relative path -> bytes (files) or '<dir>' (directories)."""
+    out = {}
+    for base, dirs, files in os.walk(root):
+        rel = os.path.relpath(base, root)
+        for dn in dirs:
+            out[os.path.normpath(os.path.join(rel, dn))] = "<dir>"
+        for fn in files:
+            with open(os.path.join(base, fn), "rb") as f:
+                out[os.path.normpath(os.path.join(rel, fn))] = f.read()
+    return out
+
+
+def s_refused():
+    @st.composite
+    def s(draw):
+        kind = draw(st.sampled_from(["landmark", "landmark", "image", "image", "pickle", "pickle", "video"]))
+        c = {"kind": kind, "dir": draw(st.sampled_from(DIRS)), "name": draw(st.sampled_from(HIST_FILES[kind])),
+             "target": draw(st.sampled_from(REFUSE_TARGETS)), "overwrite": draw(st.sampled_from([False, False, None])),
+             "spelling": draw(st.integers(0, 6)), "as_path": draw(st.booleans()), "tag": draw(st.integers(0, 250)),
+             "expand": draw(st.sampled_from([0, 0, 1, 2, 3])) if kind == "pickle" else 0,
+             "ext_kw": draw(st.sampled_from([None, "match", "mismatch", "mismatch"])) if kind in ("landmark", "image") else None,
+             "ext_form": draw(st.sampled_from(["dot", "nodot", "upper"]))}
+        if kind == "video" and c["target"] == "own":
+            c["target"] = "foreign"  # no video can be written here (ffmpeg is absent)
+        return c
+
+    return s()
+
+
+def _other_extension(kind, name):
+    """An extension of the same exporter family that is NOT the one of the file name."""
+    ext = name.rsplit(".", 1)[-1].lower()
+    pool = ["ljson", "pts"] if kind == "landmark" else ["png", "bmp", "tif", "jpg", "ppm"]
+    return [e for e in pool if e != ext and not (ext == "tiff" and e == "tif")][0]
+
+
+def c_refused(case, ctx):
+    kind, d, name = case["kind"], case["dir"], case["name"]
+    fn = {"landmark": mio.export_landmark_file, "image": mio.export_image, "pickle": mio.export_pickle, "video": mio.export_video}[kind]
+    is_dir = case["target"].startswith("dir")
+    tclass = "directory" if is_dir else "empty_file" if case["target"] == "empty_file" else "file"
+    ctx.nontrivial(True)
+    ctx.event("exporter=%s target=%s" % (kind, case["target"]))
+    with _Tmp() as t:
+        for dd in DIRS:
+            os.makedirs(os.path.join(t.root, dd), exist_ok=True)
+        t.chdir("work")
+        full = os.path.join(t.root, d, name)
+        with open(os.path.join(t.root, d, "keep.bin"), "wb") as f:  # a neighbour that nobody may touch
+            f.write(b"neighbour")
+        if case["target"] == "empty_file":
+            open(full, "wb").close()
+        elif case["target"] == "foreign":
+            with open(full, "wb") as f:
+                f.write(b"foreign-%d" % case["tag"])
+        elif case["target"] == "own":
+            fn(tagged_object(kind, (case["tag"] + 1) % 251), full)
+        else:
+            os.makedirs(full)
+            if case["target"] == "dir_full":
+                with open(os.path.join(full, "child.bin"), "wb") as f:
+                    f.write(b"child-%d" % case["tag"])
+        sp = spellings(t.root, d, name)
+        text, is_abs = sp[case["spelling"] % len(sp)]
+        if case["expand"]:
+            text = {1: "~/%s/%s", 2: "$VERIF_IO_DIR/%s/%s", 3: "${VERIF_IO_DIR}/%s/%s"}[case["expand"]] % (d, name)
+        fp = _as_fp(text, case["as_path"])
+        kw = {} if case["overwrite"] is None else {"overwrite": case["overwrite"]}
+        mismatch = False
+        if case["ext_kw"]:
+            ext = name.rsplit(".", 1)[-1] if case["ext_kw"] == "match" else _other_extension(kind, name)
+            mismatch = case["ext_kw"] == "mismatch"
+            kw["extension"] = {"dot": "." + ext, "nodot": ext, "upper": "." + ext.upper()}[case["ext_form"]]
+            ctx.event("extension= " + case["ext_kw"])
+        before = tree_snapshot(t.root)
+        err = None
+        try:
+            fn(tagged_object(kind, case["tag"]), fp, **kw)
+        except OverwriteError as e:
+            err = e
+        except FileNotFoundError as e:
+            # the video writer was reached (and stopped because ffmpeg is absent): the export was not refused
+            if kind != "video" or "ffmpeg" not in str(e):
+                raise
+            ctx.event("video export reached the ffmpeg call")
+        except ValueError as e:
+            # only the documented "extensions do not match" refusal may take precedence over the overwrite refusal
+            if not mismatch:
+                raise
+            err = e
+        except OSError as e:
+            # a directory cannot be opened for writing: that is a refusal too, but not the promised one
+            if not is_dir:
+                raise
+            err = e
+        after = tree_snapshot(t.root)
+        call = "%s(<obj>, %r%s)" % (fn.__name__, fp, "".join(", %s=%r" % kv for kv in sorted(kw.items())))
+        ctx.event("refused with " + type(err).__name__ if err is not None else "not refused")
+        if err is None:
+            ctx.fail("refused.no_error.%s.%s" % (tclass, kind), "%s on existing %s %s/%s returned normally" % (call, case["target"], d, name))
+        elif not isinstance(err, (OverwriteError, ValueError)):
+            ctx.fail("refused.no_overwrite_error.%s.%s" % (tclass, kind), "%s on existing %s: %r" % (call, case["target"], err))
+        ctx.expect(before == after, "refused.clobbered.%s.%s" % ("extension_mismatch" if mismatch and not is_dir else tclass, kind),
+                   lambda: "%s on existing %s: %s" % (call, case["target"], _snapdiff(
+                       {k: (v if isinstance(v, bytes) else b"<dir>") for k, v in before.items()},
+                       {k: (v if isinstance(v, bytes) else b"<dir>") for k, v in after.items()})))
+
+
+# ==============================================================================================
+# 7. export into file handles (BytesIO, named binary files) with an explicit extension=
+
+HANDLE_FORMATS = {
+    "ljson": ("landmark", "ljson"), "pts": ("landmark", "pts"),
+    # (no 'im': Pillow's IM writer needs the file name; no lossy format: the bytes are imported and compared)
+    "png": ("image", "png"), "bmp": ("image", "bmp"), "tif": ("image", "tif"), "ppm": ("image", "ppm"), "pcx": ("image", "pcx"),
+    "pkl": ("pickle", "pkl"),
+}
+
+
+def s_handles():
+    @st.composite
+    def s(draw):
+        fmt = draw(st.sampled_from(["ljson", "ljson", "pts", "pts", "png", "png", "bmp", "tif", "ppm", "pcx", "pkl", "pkl"]))
+        kind = HANDLE_FORMATS[fmt][0]
+        c = {"fmt": fmt, "handle": draw(st.sampled_from(["bytesio", "bytesio", "buffered", "named", "named", "named_existing", "bytesio_noext"])),
+             "overwrite": draw(st.sampled_from([False, True, True, None])),
+             "ext_form": draw(st.sampled_from(["nodot", "dot", "upper", "mixed"])),
+             "stem": draw(st.sampled_from(["h", "h.v2", "\u00fc h"])), "seed": draw(st.integers(0, 2 ** 16))}
+        if fmt == "ljson":
+            c["obj"] = draw(lm_shape_case(draw(st.sampled_from([2, 3]))))
+            c["form"] = draw(st.sampled_from(["shape", "manager", "dict"]))
+        elif fmt == "pts":
+            sc = draw(objs.shape_case(d=2, with_landmarks=False))
+            sc["pts"] = draw(st.lists(st.lists(st.one_of(_coord(), _coord_wide()), min_size=2, max_size=2), min_size=len(sc["pts"]), max_size=len(sc["pts"])))
+            c["obj"] = sc
+        elif kind == "image":
+            c["obj"] = {"shape": draw(st.lists(st.integers(1, 12), min_size=2, max_size=2)), "ch": draw(st.sampled_from([1, 3]))}
+            _pcx_width(c["obj"], [fmt])
+        else:
+            c["obj"] = draw(st.one_of(objs.shape_case(), objs.transform_case()))
+            c["protocol"] = draw(st.sampled_from([None, 0, 2, 4]))
+        return c
+
+    return s()
+
+
+def c_handles(case, ctx):
+    import io
+
+    fmt = case["fmt"]
+    kind, ext = HANDLE_FORMATS[fmt]
+    fn = {"landmark": mio.export_landmark_file, "image": mio.export_image, "pickle": mio.export_pickle}[kind]
+    # ---- the object and what must come back
+    if fmt == "ljson":
+        shape, want = build_lm_shape(case["obj"])
+        if case["form"] == "manager":
+            host = PointCloud(np.zeros((1, case["obj"]["d"])))
+            host.landmarks["grp"] = shape
+            obj = host.landmarks
+        elif case["form"] == "dict":
+            obj = OrderedDict([("grp", shape)])
+        else:
+            obj = shape
+    elif fmt == "pts":
+        obj = objs.build_shape(case["obj"])
+        want = np.array(case["obj"]["pts"], dtype=float)
+    elif kind == "image":
+        rs = np.random.RandomState(case["seed"])
+        want = rs.randint(0, 256, size=(case["obj"]["ch"],) + tuple(case["obj"]["shape"])).astype(np.uint8)
+        obj = Image(want.copy())
+    else:
+        oc = case["obj"]
+        obj = objs.build_shape(oc) if oc["kind"] in objs.SHAPE_KINDS else objs.build_transform(oc)
+    kw = {}
+    if case["overwrite"] is not None:
+        kw["overwrite"] = case["overwrite"]
+    if kind != "pickle" and case["handle"] != "bytesio_noext":
+        kw["extension"] = {"nodot": ext, "dot": "." + ext, "upper": "." + ext.upper(), "mixed": ext[0].upper() + ext[1:]}[case["ext_form"]]
+    if kind == "pickle" and case.get("protocol") is not None:
+        kw["protocol"] = case["protocol"]
+    handle = case["handle"]
+    if kind == "pickle" and handle == "bytesio_noext":
+        handle = "bytesio"  # export_pickle has no extension argument
+    ctx.event("format=%s handle=%s overwrite=%s" % (fmt, handle, case["overwrite"]))
+    ctx.nontrivial(handle != "bytesio_noext")
+    call = "%s(<%s>, <%s>%s)" % (fn.__name__, type(obj).__name__, handle, "".join(", %s=%r" % kv for kv in sorted(kw.items())))
+    with _Tmp() as t:
+        os.makedirs(os.path.join(t.root, "d"))
+        with open(os.path.join(t.root, "d", "keep.bin"), "wb") as f:
+            f.write(b"neighbour")
+        target = os.path.join(t.root, "d", case["stem"] + "." + ext)
+        data = None
+        if handle in ("bytesio", "buffered", "bytesio_noext"):
+            raw = io.BytesIO()
+            fh = io.BufferedWriter(raw) if handle == "buffered" else raw
+            try:
+                fn(obj, fh, **kw)
+            except ValueError as e:
+                # documented: a file-like object needs an extension
+                ctx.expect(handle == "bytesio_noext", "handle.nameless_buffer_refused", lambda: "%s: %r" % (call, e))
+                ctx.event("no extension: ValueError")
+                return
+            if handle == "bytesio_noext":
+                ctx.fail("handle.missing_extension_not_refused", "%s returned normally; %d bytes written" % (call, len(raw.getvalue())))
+                return
+            fh.flush()
+            data = raw.getvalue()
+        else:
+            if handle == "named_existing":
+                with open(target, "wb") as f:
+                    f.write(b"previous content")
+            before = tree_snapshot(t.root)
+            err = None
+            with open(target, "wb") as fh:  # from here on the path exists, whatever it held: the caller's open truncated it
+                try:
+                    fn(obj, fh, **kw)
+                except OverwriteError as e:
+                    err = e
+            permitted = bool(case["overwrite"])
+            after = tree_snapshot(t.root)
+            rel = os.path.relpath(target, t.root)
+            others = lambda snap: {k: v for k, v in snap.items() if k != rel}  # noqa: E731
+            ctx.expect(others(before) == others(after), "handle.other_files_changed", lambda: call)
+            if not permitted:
+                ctx.event("named handle refused" if err is not None else "named handle NOT refused")
+                ctx.expect(err is not None, "handle.named.no_overwrite_error." + kind,
+                           lambda: "%s on an open handle whose name is an existing path returned normally (%d bytes written)" % (call, len(after[rel])))
+                return
+            if err is not None:
+                ctx.fail("handle.named.spurious_overwrite_error." + kind, "%s: %r" % (call, err))
+                return
+            data = after[rel]
+        # ---- what the handle received is a complete file of that format: it imports back to the data
+        ctx.expect(len(data) > 0, "handle.nothing_written." + kind, call)
+        back_path = os.path.join(t.root, "back." + ext)
+        with open(back_path, "wb") as f:
+            f.write(data)
+        if fmt == "ljson":
+            res = mio.import_landmark_file(back_path)
+            if ctx.expect(isinstance(res, dict) and len(res) == 1, "handle.ljson.groups", lambda: repr(res)):
+                if case["form"] != "shape":
+                    ctx.expect(list(res.keys()) == ["grp"], "handle.ljson.group_names", lambda: repr(list(res.keys())))
+                check_landmark_shape(ctx, case["obj"], want, list(res.values())[0], "handle.ljson")
+        elif fmt == "pts":
+            res = mio.import_landmark_file(back_path)
+            if ctx.expect(isinstance(res, dict) and len(res) == 1, "handle.pts.result", lambda: repr(res)):
+                bp = list(res.values())[0].points
+                ctx.expect(bp.shape == want.shape and np.abs(bp - want).max() <= 0.5e-3 + 1e-9, "handle.pts.precision",
+                           lambda: "want %r got %r" % (want.tolist(), bp.tolist()))
+        elif kind == "image":
+            check_raw_import(ctx, mio.import_image(back_path, normalize=False), want, "handle.image")
+        else:
+            back = mio.import_pickle(back_path)
+            diff = digest.state_diff(obj, back, skip=_SKIP_PATH, memo_tolerant=True)
+            ctx.expect(diff is None, "handle.pickle.state", lambda: "%s: %s" % (type(obj).__name__, diff))
+
+
+# ==============================================================================================
+# 8. the other import entry points: import_image(...).landmarks, import_images, import_landmark_files
+
+ATTACH_STEMS = ["im", "b.c", "\u00fc x", "Q", "k-1", "face_01", "zz.v2.final", "a", "face", "zeta"]
+ATTACH_GROUPS = [g for g in GROUP_NAMES if g not in ("PTS", "LJSON")]
+_PLAIN = set("abcdefghijklmnopqrstuvwxyz")
+
+
+def s_attach():
+    @st.composite
+    def s(draw):
+        k = draw(st.integers(1, 3))
+        stems = draw(st.lists(st.sampled_from(ATTACH_STEMS), min_size=k, max_size=k, unique=True))
+        images = []
+        for stem in stems:
+            im = {"stem": stem, "ext": draw(st.sampled_from(["png", "png", "bmp", "tif", "jpg", "PNG"])),
+                  "shape": draw(st.lists(st.integers(2, 9), min_size=2, max_size=2)), "ch": draw(st.sampled_from([1, 3])),
+                  "tag": draw(st.integers(0, 255)), "ljson": None, "pts": None}
+            which = draw(st.sampled_from(["ljson", "pts", "both", "both", "none"]))
+            if which in ("ljson", "both"):
+                form = draw(st.sampled_from(["shape", "manager", "dict"]))
+                if form == "shape":
+                    groups = [["LJSON", draw(lm_shape_case(2))]]
+                else:
+                    g = draw(st.integers(1, 3))
+                    names = draw(st.lists(st.sampled_from(ATTACH_GROUPS), min_size=g, max_size=g, unique=True))
+                    # a plain dict may also hold 3-D groups: they cannot belong to a 2-D image
+                    groups = [[nm, draw(lm_shape_case(3 if form == "dict" and draw(st.integers(0, 3)) == 0 else 2))] for nm in names]
+                im["ljson"] = {"form": form, "groups": groups, "ext": draw(st.sampled_from(["ljson", "ljson", "LJSON"]))}
+            if which in ("pts", "both"):
+                sc = draw(objs.shape_case(d=2, with_landmarks=False))
+                sc["pts"] = draw(st.lists(st.lists(_coord(), min_size=2, max_size=2), min_size=len(sc["pts"]), max_size=len(sc["pts"])))
+                im["pts"] = {"shape": sc, "ext": draw(st.sampled_from(["pts", "pts", "PTS"]))}
+            images.append(im)
+        return {"images": images, "as_path": draw(st.booleans()), "pattern": draw(st.sampled_from(["dir/*", "dir", "dir/*.*"])),
+                "normalize": draw(st.booleans())}
+
+    return s()
+
+
+def _write_attach_set(root, case):
+    """Writes the directory; returns per image (file name, {group: ('ljson', shape case, want) | ('pts', want)}, [3-D group names])."""
+    out = []
+    for im in case["images"]:
+        ch, (h, w) = im["ch"], im["shape"]
+        px = np.full((h, w, ch), im["tag"], dtype=np.uint8)
+        fname = im["stem"] + "." + im["ext"]
+        # the picture is written by Pillow directly (menpo's exporter is not part of this clause)
+        _PILImage.fromarray(px[..., 0] if ch == 1 else px).save(os.path.join(root, fname))
+        expect, three_d = OrderedDict(), []
+        if im["ljson"]:
+            built = [(nm, c) + build_lm_shape(c) for nm, c in im["ljson"]["groups"]]
+            form = im["ljson"]["form"]
+            if form == "shape":
+                obj = built[0][2]
+            elif form == "manager":
+                host = PointCloud(np.zeros((1, 2)))
+                for nm, c, s, wnt in built:
+                    host.landmarks[nm] = s
+                obj = host.landmarks
+            else:
+                obj = OrderedDict((nm, s) for nm, c, s, wnt in built)
+            mio.export_landmark_file(obj, os.path.join(root, im["stem"] + "." + im["ljson"]["ext"]))
+            for nm, c, s, wnt in built:
+                if c["d"] == 2:
+                    expect[nm] = ("ljson", c, wnt)
+                else:
+                    three_d.append(nm)
+        if im["pts"]:
+            sc = im["pts"]["shape"]
+            mio.export_landmark_file(objs.build_shape(sc), os.path.join(root, im["stem"] + "." + im["pts"]["ext"]))
+            expect["PTS"] = ("pts", sc, np.array(sc["pts"], dtype=float))
+        out.append((fname, expect, three_d))
+    return out
+
+
+def _check_attached(ctx, im_obj, fname, expect, three_d, tag):
+    """The 2-D groups of the landmark files next to an image are attached under their names, with their data."""
+    got = list(im_obj.landmarks.keys()) if im_obj.has_landmarks else []
+    missing = [g for g in expect if g not in got]
+    extra = [g for g in got if g not in expect and g not in three_d]
+    ctx.expect(not missing, tag + ".group_missing", lambda: "%s: expected groups %r, attached %r" % (fname, list(expect), got))
+    ctx.expect(not extra, tag + ".group_unexpected", lambda: "%s: expected groups %r, attached %r" % (fname, list(expect), got))
+    for g, spec in expect.items():
+        if g not in got:
+            continue
+        lm = im_obj.landmarks[g]
+        if spec[0] == "ljson":
+            check_landmark_shape(ctx, spec[1], spec[2], lm, tag + ".ljson")
+        else:
+            want = spec[2]
+            ok = isinstance(lm, PointCloud) and lm.points.shape == want.shape and np.abs(lm.points - want).max() <= 0.5e-3 + 1e-9
+            ctx.expect(ok, tag + ".pts", lambda: "%s: want %r got %r" % (fname, want.tolist(), np.asarray(lm.points).tolist()))
+
+
+def _plain_order_ok(names):
+    """Names made of lower-case ASCII letters (before the extension) must appear in sorted order: the documented
+    'alphanumerically ordered' leaves no freedom there (case, digits and non-ASCII letters are not judged)."""
+    plain = [n.rsplit(".", 1)[0] for n in names if set(n.rsplit(".", 1)[0]) <= _PLAIN]
+    return plain == sorted(plain)
+
+
+def c_attach(case, ctx):
+    with _Tmp() as t:
+        root = os.path.join(t.root, "set")
+        os.makedirs(root)
+        files = _write_attach_set(root, case)
+        by_name = {fname: (expect, three_d) for fname, expect, three_d in files}
+        n_lm_files = sum((im["ljson"] is not None) + (im["pts"] is not None) for im in case["images"])
+        ctx.nontrivial(any(len(e) >= 1 for _, e, _ in files))
+        ctx.event("images=%d landmark files=%d" % (len(files), n_lm_files))
+        if any(td for _, _, td in files):
+            ctx.event("a 3-D group next to a 2-D image")
+        kw = {"normalize": case["normalize"]}
+        # ---- import_image
+        for (fname, expect, three_d), im in zip(files, case["images"]):
+            one = mio.import_image(_as_fp(os.path.join(root, fname), case["as_path"]), **kw)
+            ctx.event("groups expected=%d" % len(expect))
+            _check_attached(ctx, one, fname, expect, three_d, "attach.import_image")
+            if im["ext"].lower() != "jpg":
+                lv = to8(one.pixels)
+                ctx.expect(one.pixels.shape == (im["ch"],) + tuple(im["shape"]) and bool((lv == im["tag"]).all()), "attach.import_image.pixels",
+                           lambda: "%s: level %d expected, got levels %r" % (fname, im["tag"], np.unique(lv).tolist()))
+            bare = mio.import_image(os.path.join(root, fname), landmark_resolver=None)
+            ctx.expect(not bare.has_landmarks, "attach.landmark_resolver_none", lambda: "%s: %r" % (fname, list(bare.landmarks.keys())))
+        # ---- import_images over the directory
+        pattern = {"dir/*": os.path.join(root, "*"), "dir": root, "dir/*.*": os.path.join(root, "*.*")}[case["pattern"]]
+        lazy = mio.import_images(_as_fp(pattern, case["as_path"]), **kw)
+        names = []
+        if ctx.expect(len(lazy) == len(files), "attach.import_images.count", lambda: "%d images for %d files" % (len(lazy), len(files))):
+            for i in range(len(lazy)):
+                x = lazy[i]
+                nm = getattr(getattr(x, "path", None), "name", None)
+                names.append(nm)
+                if not ctx.expect(nm in by_name, "attach.import_images.path", lambda: "item %d has path %r" % (i, getattr(x, "path", None))):
+                    continue
+                _check_attached(ctx, x, nm, by_name[nm][0], by_name[nm][1], "attach.import_images")
+            ctx.expect(sorted(n for n in names if n) == sorted(by_name), "attach.import_images.files", lambda: "%r vs %r" % (names, sorted(by_name)))
+            ctx.expect(_plain_order_ok([n for n in names if n]), "attach.import_images.order", lambda: repr(names))
+        # ---- import_landmark_files over the directory
+        if n_lm_files == 0:
+            try:
+                mio.import_landmark_files(pattern)
+                ctx.fail("attach.import_landmark_files.empty_glob_not_refused", pattern)
+            except ValueError:
+                ctx.event("no landmark files: ValueError (documented)")
+            return
+        lms = mio.import_landmark_files(pattern)
+        if not ctx.expect(len(lms) == n_lm_files, "attach.import_landmark_files.count", lambda: "%d results for %d files" % (len(lms), n_lm_files)):
+            return
+        want_files = {}
+        for im in case["images"]:
+            if im["ljson"]:
+                want_files[im["stem"] + "." + im["ljson"]["ext"]] = ("ljson", im)
+            if im["pts"]:
+                want_files[im["stem"] + "." + im["pts"]["ext"]] = ("pts", im)
+        seen = []
+        for i in range(len(lms)):
+            res = lms[i]
+            if not ctx.expect(isinstance(res, dict) and len(res) >= 1, "attach.import_landmark_files.result_type", lambda: type(res).__name__):
+                continue
+            nm = getattr(getattr(list(res.values())[0], "path", None), "name", None)
+            seen.append(nm)
+            if not ctx.expect(nm in want_files, "attach.import_landmark_files.path", lambda: "item %d: path name %r, files %r" % (i, nm, sorted(want_files))):
+                continue
+            typ, im = want_files[nm]
+            if typ == "pts":
+                want = np.array(im["pts"]["shape"]["pts"], dtype=float)
+                bp = list(res.values())[0].points
+                ctx.expect(len(res) == 1 and bp.shape == want.shape and np.abs(bp - want).max() <= 0.5e-3 + 1e-9,
+                           "attach.import_landmark_files.pts", lambda: "%s: want %r got %r" % (nm, want.tolist(), bp.tolist()))
+            else:
+                built = [(g, c) + build_lm_shape(c) for g, c in im["ljson"]["groups"]]
+                if im["ljson"]["form"] == "shape":
+                    if ctx.expect(len(res) == 1, "attach.import_landmark_files.single_shape_groups", lambda: repr(list(res.keys()))):
+                        check_landmark_shape(ctx, built[0][1], built[0][3], list(res.values())[0], "attach.import_landmark_files.ljson")
+                elif ctx.expect(sorted(res.keys()) == sorted(g for g, _, _, _ in built), "attach.import_landmark_files.group_names",
+                                lambda: "%r vs %r" % (sorted(res.keys()), sorted(g for g, _, _, _ in built))):
+                    for g, c, s_, wnt in built:
+                        check_landmark_shape(ctx, c, wnt, res[g], "attach.import_landmark_files.ljson")
+        ctx.expect(sorted(n for n in seen if n) == sorted(want_files), "attach.import_landmark_files.files", lambda: "%r vs %r" % (seen, sorted(want_files)))
+        ctx.expect(_plain_order_ok([n for n in seen if n]), "attach.import_landmark_files.order", lambda: repr(seen))
+
+
 CLAUSES = [
     Clause("ljson", c_ljson, s_ljson, quick=500, thorough=14000, nt_floor=0.4,
-           rule="8 shape classes / LandmarkManager / dict of 1-4 groups x 2-D/3-D x NaN positions x awkward floats x float32/int points; "
-                "non-trivial: labels, NaN or >= 2 groups"),
+           rule="8 shape classes / LandmarkManager / dict of 1-4 groups x 2-D/3-D x 1-9 points x NaN positions x awkward floats x float32/int points; "
+                "a drawn group fetched through group= by str or Path; non-trivial: labels, NaN or >= 2 groups"),
     Clause("pts", c_pts, s_pts, quick=300, thorough=8000, nt_floor=0.5,
-           rule="any 2-D shape class, coordinates in [0, 5000] (k/1024, k/1000, k/2000 ties, arbitrary doubles); non-trivial: some point has x != y"),
+           rule="any shape class (one in eight 3-D), coordinates in [0, 5000] or [-4e6, 4e6] (k/1024, k/1000, k/2000 ties, arbitrary doubles), "
+                "float64 / float32 / int64 points; non-trivial: some point has x != y"),
     Clause("pickle", c_pickle, s_pickle, quick=400, thorough=10000, nt_floor=0.5,
-           rule="shapes with nested landmarks, landmark managers, images, all transform classes, PCA models x .pkl/.pkl.gz x protocol; "
-                "non-trivial: object holds a non-empty array"),
+           rule="shapes with nested landmarks, landmark managers, 2-D / 3-D / 4-D and imported images, all transform classes, RBF kernels, group "
+                "alignments, PCA (shapes, images, masked images, meshes, vectors) / GMRF / linear models x .pkl/.pkl.gz x protocol; equal state and "
+                "equal results of public calls (apply, instance, project, mahalanobis_distance, ...) on the copy; non-trivial: object holds a non-empty array"),
     Clause("image_8bit", c_image8, s_image8, quick=350, thorough=9000, nt_floor=0.4,
            rule="Image/MaskedImage/BooleanImage x 1/3 channels x shapes 1..40 x lossless formats x levels k/255 (division, multiplication, float32, uint8); "
                 "non-trivial: >= 64 distinct levels"),
     Clause("image_float", c_imagef, s_imagef, quick=250, thorough=7000, nt_floor=0.4,
            rule="float32/float64 images with arbitrary values in [0,1] (uniform, half-level ties, near-level, extremes); non-trivial: >= 64 distinct levels"),
     Clause("image_reimport", c_reimport, s_reimport, quick=300, thorough=8000, nt_floor=0.4,
-           rule="source files written by Pillow (L/RGB/RGBA/P/1) -> import_image(normalize=True/False/default) -> export_image -> import_image"),
+           rule="source files written by Pillow (L/RGB/RGBA/P/1; png/bmp/tif/ppm/pgm/pbm/pcx/im/dib and JPEG) -> import_image(normalize=True/False/default) "
+                "-> export_image -> import_image"),
     Clause("image_fresh_process", c_fresh, enumerate=enum_fresh, max_shards=12,
            rule="exhaustive: first action in a fresh interpreter (import png/bmp/tif or construct) x output format x normalize; "
                 "import -> export -> import must succeed and be the identity whatever Pillow has loaded so far"),
+    Clause("refused_export", c_refused, s_refused, quick=300, thorough=6000, nt_floor=0.9,
+           rule="one export with overwrite False/default onto an existing empty file / foreign file / menpo-written file / empty or non-empty "
+                "directory, optional extension= (matching or mismatching), 7 spellings, str/Path, ~ and $VAR for pickles; the call must raise "
+                "and the whole tree (recursive) must be unchanged; every case is non-trivial"),
+    Clause("handle_export", c_handles, s_handles, quick=300, thorough=6000, nt_floor=0.6,
+           rule="export into BytesIO / BufferedWriter / a named binary file with extension= spelled 'ljson', '.ljson', '.LJSON', 'Ljson': "
+                "the received bytes, saved under that extension, import back to the data; a named handle is an existing path (OverwriteError "
+                "unless overwrite=True); a nameless buffer without extension= raises ValueError; non-trivial: an export that must succeed or be refused by name"),
+    Clause("attach", c_attach, s_attach, quick=250, thorough=5000, nt_floor=0.5,
+           rule="a directory of 1-3 Pillow-written pictures with .ljson (shape / manager / dict) and / or .pts files of the same stem: "
+                "import_image(p).landmarks, import_images(dir)[i] and import_landmark_files(dir)[i] hold the 2-D groups under their names "
+                "with the exported data; non-trivial: some picture has a landmark group"),
     Clause("overwrite_history", c_history, s_history, quick=400, thorough=8000, nt_floor=0.3,
            rule="3-10 steps (export with overwrite False/True/default, import, foreign file) over 1-3 files in 3 directories, 7 spellings each, "
                 "str/Path; non-trivial: a refused export after a successful one"),
